@@ -21,6 +21,7 @@ RULE = (
     "caller-held values survive). The same graphs with the interrupt inside a nested graph (depth 1-2) for pause identity. AsyncRunner under SimLoop with "
     "seeded delays on siblings and handlers. Reference = the run in which every handler itself returns the response. Non-trivial = at least one pause and "
     "one resume happened; distinct = digest of (program shape, interrupt positions, script, schedule)."
+    ' Also: legal but falsy answers (0, False, "", []), interrupts that emit a signal a further node waits for, explicit select of all outputs with on_missing="error" on every call, wrappers mounted under a node name that differs from the inner graph\'s name, at most one handler may return None per run.'
 )
 ASSUMPTIONS = [
     "consumers of an interrupt's output never carry a signature default for it (such a consumer legitimately runs early)",
